@@ -122,6 +122,9 @@ func (td *ComplexListTypeDef) Deserialize(dr *codec.DecodingReader) (View, error
 		if firstOffset%OffsetByteLength != 0 {
 			return nil, fmt.Errorf("first offset %d does not align to offset length %d", firstOffset, OffsetByteLength)
 		}
+		if firstOffset == 0 || uint64(firstOffset) > scope {
+			return nil, fmt.Errorf("first offset %d is out of range, scope is %d", firstOffset, scope)
+		}
 		length := uint64(firstOffset) / OffsetByteLength
 		if length > td.ListLimit {
 			return nil, fmt.Errorf("too many items, limit %d but got %d", td.ListLimit, length)
